@@ -108,6 +108,8 @@ impl Mul<f64> for Duration {
         let ten: f64 = 10.0;
 
         loop {
+            #[cfg(feature = "verif-hooks")]
+            crate::verif_hooks::tick("Duration*f64");
             if (new_val.floor() - new_val).abs() < f64::EPSILON {
                 // Yay, we've found the precision of this number
                 break;
